@@ -75,7 +75,7 @@ def run(chk):
     mns = mnemonics()
     thorough = chk.tier == "thorough"
     nrand = 40 if thorough else 6
-    dist = {"form_cases": 0, "branch_numeric": 0, "branch_label": 0, "pairs": 0, "rejected": 0, "accepted": 0}
+    dist = {"bad_shapes": 0, "form_cases": 0, "branch_numeric": 0, "branch_label": 0, "pairs": 0, "rejected": 0, "accepted": 0}
 
     def asm(text):
         return probe.call({"cmd": "asm", "files": {"main.asm": text}, "merge": False})
@@ -130,6 +130,29 @@ def run(chk):
                     chk.oracle_failure("Known_branch_target_zero",
                                        "%r at $%04X yields %s (distance out of range, must be rejected)" % (text, DEFAULT_PC, io),
                                        {"text": text, "impl": io})
+
+    # ---- 1b. operand shapes OUTSIDE the form table: nothing the ISA defines looks like this, so every one must be rejected
+    #          (an error, no bytes), for every mnemonic, with and without blanks, alone and between two other statements
+    bad_shapes = ["({v},x),y", "({v},x),x", "({v},y),x", "({v},y),y", "({v}),y,x", "({v}),x,y", "{v},x,y", "{v},y,x", "{v},x,x",
+                  "#{v},x", "#{v},y", "(#{v})", "(#{v}),y", "{v},z", "({v},z)", "({v}),z", "{v},", "{v},x,", ",x", "()", "(,x)", "#",
+                  "{v} {v}", "({v},x) ,y ,y", "({v} ,x ),y"]
+    dist["bad_shapes"] = 0
+    for mi, mn in enumerate(mns):
+        for shape in bad_shapes:
+            # `%101 %101` would be the legal expression 5 % 101: juxtaposed values must not be able to form an operator
+            v = rng.choice(["$10", "$1234", "16", "lab"] + ([] if shape.count("{v}") > 1 else ["%101"]))
+            op = shape.replace("{v}", v)
+            if rng.random() < 0.3:
+                op = op.replace(",", " , ").replace("(", "( ").replace(")", " )")
+            for wrap in ("%s", "nop\n%s\nnop"):
+                text = "lab: nop\n" + wrap % (mn.lower() + " " + op)
+                io = impl_outcome(asm(text))
+                dist["bad_shapes"] += 1
+                chk.count(1, 0 if text.lower() in seen_texts else 1)
+                seen_texts.add(text.lower())
+                if io[0] == "ok":
+                    chk.oracle_failure(None, "%r has an operand of a shape the ISA does not define, yet it assembles to %s" % (text, io[1]),
+                                       {"text": text, "impl": io, "spec": ("rejected",)})
 
     # ---- 2. branches: all distances -140..140, numeric targets and labels, forward and backward
     branch_mns = [(i, m) for i, m in enumerate(mns) if m in ("Bcc", "Bcs", "Beq", "Bmi", "Bne", "Bpl", "Bvc", "Bvs")]
